@@ -498,7 +498,6 @@ func (db *Backend) ListBucketVersions(
 	}
 
 	var truncated = false
-	var first = true
 	var cnt int64 = 0
 
 	// FIXME: The S3 docs have this to say on the topic of result ordering:
@@ -524,19 +523,23 @@ func (db *Backend) ListBucketVersions(
 			continue
 		}
 
-		versions := iter.Value().(*bucketObject).Iterator()
-		if first {
-			if page.VersionIDMarker != "" {
-				if !versions.Seek(page.VersionIDMarker) {
-					// FIXME: log
-					return result, gofakes3.ErrInternal
-				}
-			}
-			first = false
+		// The markers name the last entry of the previous page (see
+		// NextKeyMarker/NextVersionIDMarker below): the listing continues
+		// strictly after it. Without a version marker that is after the key.
+		atMarker := page.KeyMarker != "" && object.name == page.KeyMarker
+		if atMarker && page.VersionIDMarker == "" {
+			continue
 		}
+
+		versions := object.Iterator()
 
 		for versions.Next() {
 			version := versions.Value()
+
+			// Versions are iterated in ascending ID order:
+			if atMarker && version.versionID <= page.VersionIDMarker {
+				continue
+			}
 
 			if version.deleteMarker {
 				marker := &gofakes3.DeleteMarker{
@@ -566,6 +569,10 @@ func (db *Backend) ListBucketVersions(
 			cnt++
 			if page.MaxKeys > 0 && cnt >= page.MaxKeys {
 				truncated = versions.Next()
+				result.NextKeyMarker = version.name
+				if bucket.versioning != gofakes3.VersioningNone {
+					result.NextVersionIDMarker = version.versionID
+				}
 				goto done
 			}
 		}
@@ -573,6 +580,9 @@ func (db *Backend) ListBucketVersions(
 
 done:
 	result.IsTruncated = truncated || iter.Next()
+	if !result.IsTruncated {
+		result.NextKeyMarker, result.NextVersionIDMarker = "", ""
+	}
 
 	return result, nil
 }
